@@ -24,6 +24,9 @@ type Fragment struct {
 	Idents  []model.Tok   // UID / QID usable as field names and hash keys
 	Funcs   []model.Tok   // UID usable as callee
 	Leaves  []model.Tok   // LIT, RAW, CUR tokens usable as primaries
+	// Compounds are multi-token primaries of weight 1 (self-delimiting: calls or
+	// parenthesised expressions), e.g. the erroring sub-expressions of C11.
+	Compounds [][]model.Tok
 	Nums    []model.Tok   // NUM usable as index
 	Slices  [][]model.Tok // token sequences allowed between '[' and ']' as slices
 	Cmps    []model.Tok
@@ -250,6 +253,15 @@ func (g *Gen) gen(n gnt, w int) []string {
 			for _, t := range f.Leaves {
 				if g.w(t) == w {
 					out = append(out, g.sym(t))
+				}
+			}
+			if w == 1 {
+				for _, c := range f.Compounds {
+					body := ""
+					for _, t := range c {
+						body += g.sym(t)
+					}
+					out = append(out, body)
 				}
 			}
 			if f.Paren {
